@@ -97,6 +97,23 @@ fn ident_u32(v: u32) -> u32 { v }
 fn ok_u32(v: u32) -> darling::Result<u32> { Ok(v) }
 fn seven() -> u32 { 7 }
 
+// a default path may be generic in its return type: the member's type pins it
+#[derive(Debug, darling::FromMeta)]
+#[darling(default = Default::default)]
+pub struct GenericDefaults {
+    #[darling(default = Default::default)] pub a: u32,
+    #[darling(default = ::core::default::Default::default)] pub b: Option<String>,
+    #[darling(default = fallback)] pub c: Vec<u8>,
+    pub d: u32,
+    #[darling(skip, default = fallback)] pub e: u64,
+}
+impl Default for GenericDefaults { fn default() -> Self { loop {} } }
+fn fallback<T: Default>() -> T { T::default() }
+#[derive(Debug, darling::FromDeriveInput)]
+#[darling(attributes(a), default = fallback)]
+pub struct GenericDefaultsDi { #[darling(default = fallback)] pub a: u32, pub b: u32 }
+impl Default for GenericDefaultsDi { fn default() -> Self { loop {} } }
+
 // names are data, never code: a rename may hold anything a string can (braces, quotes,
 // backslashes, percent signs, nothing at all), on every kind of member and on variants
 #[derive(Debug, darling::FromMeta)]
@@ -175,6 +192,7 @@ fn main() {
     need_field::<SkipFromFn>();
     need_meta::<EClosures>();
     mac::instantiate();
+    need_meta::<GenericDefaults>();
     need_meta::<OddNames>();
     need_meta::<OddVariants>();
     fn need_di<X: darling::FromDeriveInput>() {}
